@@ -43,7 +43,7 @@ func e2eDdnWorker(args []string) error {
 		_ = os.WriteFile(p.Trace+".summary", b, 0o644)
 	}()
 
-	cfg := agent.Cfg{N4Addr: p.N4Addr, Datapath: "bess", LogLevel: "error", ReadTimeout: 120, RespTimeout: "2s", MaxReqRetries: 5, NotifyBess: true}
+	cfg := agent.Cfg{N4Addr: p.N4Addr, Datapath: "bess", LogLevel: "warn", ReadTimeout: 120, RespTimeout: "2s", MaxReqRetries: 5, NotifyBess: true}
 	if p.DdnMs > 0 {
 		cfg.Env = []string{"VERIF_DDN_MS=" + itoa(p.DdnMs)}
 	}
